@@ -1342,8 +1342,9 @@ class EventBus:
         # Check if this handler processed the parent event
         if handler_id in parent_event.event_results:
             result = parent_event.event_results[handler_id]
-            if result.status in ('pending', 'started', 'completed'):
-                # This handler processed the parent event, increment depth
+            dispatched_this_event = any(child.event_id == event.event_id for child in result.event_children)
+            if dispatched_this_event and result.status in ('pending', 'started', 'completed'):
+                # This handler processed the parent event and dispatched this event from it, increment depth
                 depth += 1
 
         # Recursively check the parent's ancestry
